@@ -50,8 +50,8 @@ def run(ctx):
     calls = [c for c in ast.walk(vl.node) if isinstance(c, ast.Call) and X.call_name_of(c) == 'get_pyrange']
     if not calls:
         raise AnalysisError('LoopUnrollTransformer.visit_Loop no longer uses get_pyrange')
-    ok = 'LoopRange((start, stop, step))' in ast.unparse(calls[0]) and 'start, stop = (o.bounds.start, o.bounds.stop)' in src \
-        and 'o.bounds.step' in src
+    ok = 'LoopRange((start, stop, step))' in ast.unparse(calls[0]) and X.has(src, 'start, stop = (o.bounds.start, o.bounds.stop)') \
+        and X.has(src, 'o.bounds.step')
     (ctx.judge('R1', 'unroller passes start/stop/step') if ok else
      ctx.violation('R1', 'LoopUnrollTransformer.visit_Loop:range', vl.where, 'the range handed to get_pyrange is not built from '
                    'start, stop and step of the loop'))
